@@ -99,12 +99,14 @@ def Index.wellFormed (ix : Index) : Bool :=
 
 /-! ## Expansion and node-map generation: the statements of a document -/
 
-/-- Absolute IRI in the sense the fragment needs: contains `:`, is not keyword-like (`@…`) and is
-not a blank node label (`_:…`).  Everything else is outside the fragment. -/
+/-- Absolute IRI in the sense the fragment needs: contains `:`, is not keyword-like (`@…`), is not a
+blank node label (`_:…`) and is not a network-path reference (`//…`, which json-gold's final compaction
+rewrites: `//a:b/c` comes out as `b/c`).  Everything else is outside the fragment. -/
 def absIri (s : String) : Bool :=
   match s.toList with
   | '@' :: _ => false
   | '_' :: ':' :: _ => false
+  | '/' :: '/' :: _ => false
   | cs => cs.contains ':'
 
 /-- the `@id` of an object: its first `@id` entry, which must be an absolute IRI string -/
